@@ -59,8 +59,12 @@ fn run_schedule(s: &Schedule) -> Result<Vec<String>, (String, String)> {
     let w = Arc::new(World::default());
     w.fail_at.store(s.creator_fails_at as u64, Ordering::SeqCst);
     let requests: Arc<Mutex<Vec<u64>>> = Arc::new(Mutex::new(vec![])); // return times
+    // the same, never consumed (what justifies a creator call)
+    let all_requests: Arc<Mutex<Vec<u64>>> = Arc::new(Mutex::new(vec![]));
+    let mut last_reset: u64 = 0;
     let wc = w.clone();
     let reqc = requests.clone();
+    let allc = all_requests.clone();
     let fast = s.fast_reload;
     let cb_mode = s.callback;
     let reloader = AutoReloader::new(move |notifier: Notifier| {
@@ -75,7 +79,9 @@ fn run_schedule(s: &Schedule) -> Result<Vec<String>, (String, String)> {
         }
         if w.in_creator_request.swap(false, Ordering::SeqCst) {
             notifier.request_reload();
-            reqc.lock().unwrap().push(w.tick());
+            let t = w.tick();
+            reqc.lock().unwrap().push(t);
+            allc.lock().unwrap().push(t);
         }
         if w.fail_at.load(Ordering::SeqCst) == n {
             w.creator_running.store(false, Ordering::SeqCst);
@@ -102,19 +108,37 @@ fn run_schedule(s: &Schedule) -> Result<Vec<String>, (String, String)> {
         }
         if points[0] {
             notifier.request_reload();
-            requests.lock().unwrap().push(w.tick());
+            let t = w.tick();
+            requests.lock().unwrap().push(t);
+            all_requests.lock().unwrap().push(t);
         }
         // requests at the interior yield points
         let plan: Vec<bool> = points.clone();
         let w2 = w.clone();
         let n2 = notifier.clone();
         let req2 = requests.clone();
+        let all2 = all_requests.clone();
         w.in_creator_request.store(plan[4], Ordering::SeqCst);
+        // logical time at which the reload flag had been reset in this acquire: the cache clear (or
+        // the creator) runs after it, so it satisfies every request that returned before this time
+        let reset_done_at = Arc::new(AtomicU64::new(0));
+        let rda = reset_done_at.clone();
+        // ... and the time right after the reset, before any request planned for that point
+        let reset_at = Arc::new(AtomicU64::new(0));
+        let ra = reset_at.clone();
         minijinja_autoreload::verif::set_yield_callback(Some(Box::new(move |name: &'static str| {
             let idx = POINTS.iter().position(|p| *p == name).unwrap_or(usize::MAX);
+            if name == "after_reset" {
+                ra.store(w2.tick(), Ordering::SeqCst);
+            }
             if idx != 4 && idx < plan.len() && plan[idx] {
                 n2.request_reload();
-                req2.lock().unwrap().push(w2.tick());
+                let t = w2.tick();
+                req2.lock().unwrap().push(t);
+                all2.lock().unwrap().push(t);
+            }
+            if name == "after_reset" {
+                rda.store(w2.tick(), Ordering::SeqCst);
             }
         })));
         let start = w.tick();
@@ -125,6 +149,10 @@ fn run_schedule(s: &Schedule) -> Result<Vec<String>, (String, String)> {
         minijinja_autoreload::verif::set_yield_callback(None);
         // a request planned for the creator that did not run is simply not issued
         w.in_creator_request.store(false, Ordering::SeqCst);
+        let prev_last_reset = last_reset;
+        if reset_at.load(Ordering::SeqCst) != 0 {
+            last_reset = reset_at.load(Ordering::SeqCst);
+        }
         match res {
             Err(e) => {
                 w.log.lock().unwrap().push(format!("acquire {ai} failed: {e}"));
@@ -144,7 +172,7 @@ fn run_schedule(s: &Schedule) -> Result<Vec<String>, (String, String)> {
                     .unwrap_or(0);
                 let loader_hit = w.loader_calls.load(Ordering::SeqCst) > loader_before;
                 // with fast reload a cleared cache shows as a fresh loader call at this acquire
-                cache_fresh_since = if loader_hit { start } else { 0 };
+                cache_fresh_since = if loader_hit { reset_done_at.load(Ordering::SeqCst).max(start) } else { 0 };
                 let creator_ran = w.creator_calls.load(Ordering::SeqCst) > creator_before;
                 // every request that returned before this acquire started must be reflected
                 let mut owed: Vec<u64> = pending_before.clone();
@@ -163,18 +191,30 @@ fn run_schedule(s: &Schedule) -> Result<Vec<String>, (String, String)> {
                     ));
                 }
                 // satisfied requests are consumed (they are owed to the *next* acquire only)
-                requests.lock().unwrap().retain(|t| *t >= start);
+                // (also those that arrived during this acquire but before its rebuild / cache clear)
+                requests.lock().unwrap().retain(|t| *t >= start && !(stamp > *t || (s.fast_reload && cache_fresh_since > *t)));
                 // without a request (and with the callback silent) the creator is not called again
-                if creator_ran && ai > 0 && pending_before.is_empty() && !armed_before && !points[1] && !points[0] && s.creator_fails_at == 0 {
+                // (a request counts from the moment the reload flag was last reset: one that arrives
+                // between the reset and the creator legitimately causes one more rebuild)
+                let this_reset = reset_at.load(Ordering::SeqCst);
+                let justified = all_requests.lock().unwrap().iter().any(|t| *t > prev_last_reset && (this_reset == 0 || *t < this_reset));
+                if creator_ran && ai > 0 && !justified && !armed_before && s.creator_fails_at == 0 {
                     problems.push((
                         "creator_called_without_request".into(),
                         format!("acquire {ai}: the creator ran although no request was pending"),
                     ));
                 }
                 // while the guard is held the environment is not replaced, whatever is requested
+                // (slot 7 of the acquire: a request issued under the held guard; schedules without
+                // it leave later acquires free of pending requests, which is what makes the
+                // "no creator call without a request" clause bite)
                 let held_stamp = stamp;
-                notifier.request_reload();
-                requests.lock().unwrap().push(w.tick());
+                if points.get(7).copied().unwrap_or(false) {
+                    notifier.request_reload();
+                    let t = w.tick();
+                    requests.lock().unwrap().push(t);
+                    all_requests.lock().unwrap().push(t);
+                }
                 let again: u64 = guard
                     .globals()
                     .find(|(k, _)| *k == "created_at")
@@ -201,7 +241,7 @@ impl Part for Reloader {
 
     fn strategy(_tier: Tier) -> BoxedStrategy<Schedule> {
         (
-            prop::collection::vec(prop::collection::vec(prop::bool::weighted(0.3), 7), 1..6),
+            prop::collection::vec(prop::collection::vec(prop::bool::weighted(0.25), 8), 1..6),
             any::<bool>(),
             0u8..3,
             0u8..5,
@@ -238,14 +278,14 @@ impl Part for Reloader {
 pub fn enumerate(max_acquires: usize, max_requests: usize) -> Vec<Schedule> {
     let mut out = vec![];
     for n in 1..=max_acquires {
-        let slots = n * 7;
+        let slots = n * 8;
         // choose up to max_requests slots
         let choose = |k: usize, out: &mut Vec<Schedule>| {
             let mut idx: Vec<usize> = (0..k).collect();
             loop {
-                let mut acquires = vec![vec![false; 7]; n];
+                let mut acquires = vec![vec![false; 8]; n];
                 for &i in &idx {
-                    acquires[i / 7][i % 7] = true;
+                    acquires[i / 8][i % 8] = true;
                 }
                 for fast_reload in [false, true] {
                     for (callback, armed_at) in [(0u8, 0u8), (1, 0), (2, 1), (2, 2)] {
@@ -286,7 +326,7 @@ pub fn enumerate(max_acquires: usize, max_requests: usize) -> Vec<Schedule> {
                     for (callback, armed_at) in [(0u8, 0u8), (1, 0), (2, 1), (2, 2)] {
                         for creator_fails_at in [0u8, 2] {
                             out.push(Schedule {
-                                acquires: vec![vec![false; 7]; n],
+                                acquires: vec![vec![false; 8]; n],
                                 fast_reload,
                                 callback,
                                 armed_at,
@@ -396,7 +436,7 @@ impl Part for ThreadStress {
 crate::declare_parts!(Reloader, ThreadStress);
 
 pub fn run(ctx: &mut Ctx) {
-    ctx.rule = "schedules at the granularity of the reloader's lock acquisitions: up to 3 acquire_env calls (thorough: 4) with up to 3 request_reload calls placed before the acquire, right after the cache lock, between the reload check and the flag reset, between the reset and the creator, inside the creator (through the notifier handed to it), after the rebuild and before the guard is returned (verif_hooks yield points), x fast reload on/off x freshness callback absent / false / true-once x creator failing on its second call: enumerated completely; proptest samples longer schedules (up to 5 acquires). Oracle: a logical clock; for every request that returned at t, the first successful acquire that started after t returns an environment whose creator started after t (or, with fast reload, whose template cache was cleared, observed as a loader call); while a guard is held the stamp does not change and the creator is not running; without a pending request the creator is not called again. A real-thread stress run (2-4 threads) is a smoke test. Non-trivial: a request at an interior yield point or inside the creator. Distinct by schedule.".into();
+    ctx.rule = "schedules at the granularity of the reloader's lock acquisitions: up to 3 acquire_env calls (thorough: 4) with up to 3 request_reload calls placed before the acquire, right after the cache lock, between the reload check and the flag reset, between the reset and the creator, inside the creator (through the notifier handed to it), after the rebuild, before the guard is returned (verif_hooks yield points) and while the returned guard is held, x fast reload on/off x freshness callback absent / false / true-once x creator failing on its second call: enumerated completely; proptest samples longer schedules (up to 5 acquires). Oracle: a logical clock; for every request that returned at t, the first successful acquire that started after t returns an environment whose creator started after t (or, with fast reload, whose template cache was cleared, observed as a loader call); while a guard is held the stamp does not change and the creator is not running; without a pending request the creator is not called again. A real-thread stress run (2-4 threads) is a smoke test. Non-trivial: a request at an interior yield point or inside the creator. Distinct by schedule.".into();
     ctx.assumptions = vec![
         "file-change notifications set the same flag under the same lock as request_reload and are represented by it".into(),
         "interleavings are produced on one thread through the hook callback; the real-thread part only samples".into(),
